@@ -7,6 +7,7 @@ CONSTANTS
   InitSet = {1, 2, 3}
   InitSigner = 1
   MaxNumber = 9
+  UpgradeSets = {}
 PROPERTIES AcceptedIsChild SignerEligible SetChangesOnlyAtOffset PendingOnlyAtEpoch ConsIsRoot RejectChangesNothing
 VIEW stateVars
 CHECK_DEADLOCK FALSE
